@@ -97,6 +97,13 @@ def run(tier: str, seed: int) -> int:
         ("N1-E2", mc_constants(dur=4, E0=2, vals={0, 2}, pdty={"f"}, kinds=KINDS, kind0="ready", **T)),
         ("N2-E1-int", mc_constants(dur=8, E0=1, vals={0, 2}, pdty={"i"}, kinds=KINDS, kind0="ready", dty0="i", **T)),
     ]
+    # fine ticks: a step of 65536 ticks; times are grid points -2 .. +2 ticks, tolerances 1/2 and 3/2 ticks.  With a real
+    # step time of 1.0 one tick is 1.5e-5: "one tick off the grid, outside the tolerance" stays off the grid only if the
+    # tolerance is ABSOLUTE (a relative term of 1e-5 * t would swallow it from the second grid point on)
+    FD = 65536
+    fine = mc_constants(dur=3 * FD, dt=FD, E0=1, vals={0, 2}, pdty={"f"}, kinds=KINDS, kind0="ready", taunear={0, 1, 2, 3, 4},
+                        dtset=(FD,), durset=(3 * FD,), **T)
+    mc.append(("N3-E1-fine", fine))
     if tier == "thorough":
         mc += [
             ("N2-E2-v2", mc_constants(dur=8, E0=2, vals={0, 2}, pdty={"f"}, kinds=KINDS, kind0="ready", **T)),
@@ -119,6 +126,11 @@ def run(tier: str, seed: int) -> int:
             replay_graph(chk, g, consts, budget=(None if tier == "thorough" else budget), rng=rng,
                          param=rng.random() < 0.5, tick=tick)
         roundtrip(chk, g, consts, rng, 400 if tier == "quick" else 5000, rng.choice(ticks))
+
+    gf = gen_graph(chk, "N3-E1-fine", fine)
+    for tick in ((1.0 / FD, 0.5 / FD, 2.0 / FD) if tier == "thorough" else (1.0 / FD,)):
+        replay_graph(chk, gf, fine, budget=(None if tier == "thorough" else 9000), rng=rng, param=rng.random() < 0.5, tick=tick)
+    roundtrip(chk, gf, fine, rng, 200 if tier == "quick" else 2000, 1.0 / FD)
 
     canary_replay(chk, g, consts, rng)
     ntr = 120 if tier == "quick" else 2500
